@@ -193,15 +193,35 @@ def rule_immut_class(report, cls, fresh_ctor_methods=(), clause=None):
         selfname = fn.params[0] if fn.params and fn.kind in ("method", "property", "setter") else None
         fresh = set()
         rebound = set()
+        aliases = set()
         problems = []
-        for node in walk_no_nested(fn.node):
-            if isinstance(node, ast.Assign):
-                for t in node.targets:
-                    if isinstance(t, ast.Name):
-                        if isinstance(node.value, ast.Call) and isinstance(node.value.func, ast.Name) \
-                                and node.value.func.id in ("cls", cls.name):
-                            fresh.add(t.id)
-                        rebound.add(t.id)
+
+        def rooted_in_state(e):
+            """expression denotes (part of) the receiver's or a parameter's own state: an attribute/subscript chain
+            rooted at self / a parameter / a known alias, possibly through `x or y` / conditional expressions"""
+            if isinstance(e, (ast.Attribute, ast.Subscript)):
+                b = e.value
+                while isinstance(b, (ast.Attribute, ast.Subscript)):
+                    b = b.value
+                return isinstance(b, ast.Name) and (b.id == selfname or b.id in params or b.id in aliases)
+            if isinstance(e, ast.Name):
+                return e.id in aliases
+            if isinstance(e, ast.BoolOp):
+                return any(rooted_in_state(v) for v in e.values)
+            if isinstance(e, ast.IfExp):
+                return rooted_in_state(e.body) or rooted_in_state(e.orelse)
+            return False
+        for _pass in range(2):
+            for node in walk_no_nested(fn.node):
+                if isinstance(node, ast.Assign):
+                    for t in node.targets:
+                        if isinstance(t, ast.Name):
+                            if isinstance(node.value, ast.Call) and isinstance(node.value.func, ast.Name) \
+                                    and node.value.func.id in ("cls", cls.name):
+                                fresh.add(t.id)
+                            elif rooted_in_state(node.value):
+                                aliases.add(t.id)
+                            rebound.add(t.id)
         for node in walk_no_nested(fn.node):
             targets = []
             if isinstance(node, ast.Assign):
@@ -228,6 +248,8 @@ def rule_immut_class(report, cls, fresh_ctor_methods=(), clause=None):
                         continue
                     if b == selfname or (b in params and b not in rebound) or b == "cls":
                         problems.append(short(node))
+                    elif b in aliases:
+                        problems.append(short(node) + f"   [{b} aliases the receiver's own state]")
             if isinstance(node, ast.Call):
                 cn = call_name(node)
                 if cn == "setattr" and node.args and isinstance(node.args[0], ast.Name):
